@@ -179,40 +179,80 @@ Section Rules.
     intros [H1 _]. unfold beam_of_cfg, set_theta_external.
     destruct (bc_theta_deg b), (bc_theta_ext_deg b); try reflexivity.
     specialize (H1 (beam_new o pol (nmul o (bc_phi_deg b) (u_deg o)) (n0 o) (nmul o (bc_wavelength_nm b) (u_nano o))
-                           (nmul o (bc_waist_um b) (u_micro o))) (nabs o (nmul o n (u_deg o))) cs).
+                           (nmul o (bc_waist_um b) (u_micro o))) (nmul o n (u_deg o)) cs).
     destruct (o_snell_inv K _ _ _); [reflexivity | congruence].
+  Qed.
+
+  (* ... and the same PER INPUT: only the oracle calls that THIS configuration makes have to be defined (a signal beyond total
+     internal reflection fails the second clause only when the crystal angle is automatic: finding F7b) *)
+  Definition searches_defined_at (c : spdc_cfg num) : Prop :=
+    (forall b e cs, o_snell_inv K b e cs <> None) /\
+    (forall signal, signal_step c = Ok signal ->
+       (is_auto (cc_theta_deg (c_crystal c)) = true -> c_pp c = PCOff ->
+          o_snell_ext K signal (cfg_cs0 c) <> None /\
+          (forall e, o_snell_ext K signal (cfg_cs0 c) = Some e ->
+                     o_nm_theta K (erase_theta o (cfg_cs0 c)) e signal (cfg_pump c) <> None)) /\
+       (forall a, c_pp c = PCConfig Auto a -> o_nm_period K signal (cfg_pump c) (cfg_cs0 c) <> None)).
+
+  Lemma searches_total_at c : searches_total -> searches_defined_at c.
+  Proof. intros (H1 & H2 & H3 & H4). split; [exact H1 |]. intros signal _. repeat split; intros; auto. Qed.
+
+  Lemma beam_of_cfg_no_panic' pol b cs : (forall b e cs, o_snell_inv K b e cs <> None) -> is_panic (beam_of_cfg o K pol b cs) = false.
+  Proof.
+    intros H1. unfold beam_of_cfg, set_theta_external.
+    destruct (bc_theta_deg b), (bc_theta_ext_deg b); try reflexivity.
+    specialize (H1 (beam_new o pol (nmul o (bc_phi_deg b) (u_deg o)) (n0 o) (nmul o (bc_wavelength_nm b) (u_nano o))
+                           (nmul o (bc_waist_um b) (u_micro o))) (nmul o n (u_deg o)) cs).
+    destruct (o_snell_inv K _ _ _); [reflexivity | congruence].
+  Qed.
+
+  Theorem no_panic_at c :
+    searches_defined_at c ->
+    (forall signal, signal_step c = Ok signal -> le_pump signal (cfg_pump c) = false) ->
+    is_panic (try_as_spdc c) = false.
+  Proof.
+    intros [H1 Hat] Hle. unfold Config.try_as_spdc_steps.
+    pose proof (beam_of_cfg_no_panic' (signal_polarization (cs_pm (cfg_cs0 c))) (c_signal c) (cfg_cs0 c) H1) as Hsp.
+    fold (Config.signal_step o K c) in Hsp.
+    destruct (signal_step c) as [signal | |] eqn:Hs; cbn [bind is_panic] in *; try reflexivity; try discriminate.
+    specialize (Hle signal eq_refl). destruct (Hat signal eq_refl) as [Hth0 Hper0].
+    assert (Hpp : is_panic (poling_step c signal) = false).
+    { unfold Config.poling_step, poling_of_cfg. destruct (c_pp c) as [| per a] eqn:Hcpp; [reflexivity |].
+      destruct per as [| pu].
+      - unfold optimum_poling_period. rewrite Hle. destruct (neqb o _ _); [reflexivity |].
+        specialize (Hper0 a eq_refl).
+        destruct (o_nm_period K _ _ _); [| congruence].
+        destruct (_ || _); reflexivity.
+      - destruct (rj && neqb o pu (n0 o)); [reflexivity |]. unfold compute_sign. rewrite Hle. reflexivity. }
+    assert (Hoff : forall pp nf, poling_step c signal = Ok (pp, nf) -> is_pol_off pp = true -> c_pp c = PCOff).
+    { intros pp nf. unfold Config.poling_step, poling_of_cfg. destruct (c_pp c) as [| [| pu] a]; [reflexivity | |].
+      - unfold optimum_poling_period. destruct (le_pump signal (cfg_pump c)); cbn [bind]; try discriminate.
+        destruct (neqb o _ _); cbn [bind].
+        + intros H; inversion H; subst. discriminate.
+        + destruct (o_nm_period K _ _ _); cbn [bind]; try discriminate. destruct (_ || _); cbn [bind]; try discriminate.
+          intros H; inversion H; subst. unfold poling_new. destruct (nltb o (n0 o) _); discriminate.
+      - destruct (rj && neqb o pu (n0 o)); [discriminate |].
+        destruct (compute_sign o K signal (cfg_pump c) (cfg_cs0 c)); cbn [bind]; try discriminate.
+        intros H; inversion H; subst. unfold poling_new. destruct (nltb o (n0 o) _); discriminate. }
+    destruct (poling_step c signal) as [[pp nf] | |] eqn:Hps; cbn [bind is_panic fst] in *; try reflexivity; try discriminate.
+    assert (Hth : is_panic (theta_step c signal pp) = false).
+    { unfold Config.theta_step. destruct (is_auto _) eqn:Hau; [| reflexivity]. destruct (is_pol_off pp) eqn:Hpo; [| reflexivity].
+      destruct (Hth0 eq_refl (Hoff pp nf eq_refl Hpo)) as [H2 H3].
+      unfold optimum_theta. destruct (o_snell_ext K _ _) as [e |]; [| congruence].
+      rewrite Hle. specialize (H3 e eq_refl).
+      destruct (o_nm_theta K _ _ _ _); [reflexivity | congruence]. }
+    destruct (theta_step c signal pp) as [cs | |]; cbn [bind is_panic] in *; try reflexivity; try discriminate.
+    unfold Config.idler_step. destruct (c_idler c) as [| ic].
+    - unfold idler_optimum. rewrite Hle. destruct (o_idler_theta K _ _ _ _); reflexivity.
+    - pose proof (beam_of_cfg_no_panic' (idler_polarization (cs_pm cs)) ic cs H1) as Hi.
+      destruct (beam_of_cfg o K _ ic cs); cbn [bind is_panic] in *; try reflexivity; discriminate.
   Qed.
 
   Theorem no_panic_partial c :
     searches_total ->
     (forall signal, signal_step c = Ok signal -> le_pump signal (cfg_pump c) = false) ->
     is_panic (try_as_spdc c) = false.
-  Proof.
-    intros Htot Hle. pose proof Htot as [H1 [H2 [H3 H4]]]. unfold Config.try_as_spdc_steps.
-    pose proof (beam_of_cfg_no_panic (signal_polarization (cs_pm (cfg_cs0 c))) (c_signal c) (cfg_cs0 c) Htot) as Hsp.
-    fold (Config.signal_step o K c) in Hsp.
-    destruct (signal_step c) as [signal | |] eqn:Hs; cbn [bind is_panic] in *; try reflexivity; try discriminate.
-    specialize (Hle signal eq_refl).
-    assert (Hpp : is_panic (poling_step c signal) = false).
-    { unfold Config.poling_step, poling_of_cfg. destruct (c_pp c) as [| per a]; [reflexivity |].
-      destruct per as [| pu].
-      - unfold optimum_poling_period. rewrite Hle. destruct (neqb o _ _); [reflexivity |].
-        specialize (H4 signal (cfg_pump c) (cfg_cs0 c)).
-        destruct (o_nm_period K _ _ _); [| congruence].
-        destruct (_ || _); reflexivity.
-      - destruct (rj && neqb o pu (n0 o)); [reflexivity |]. unfold compute_sign. rewrite Hle. reflexivity. }
-    destruct (poling_step c signal) as [[pp nf] | |]; cbn [bind is_panic fst] in *; try reflexivity; try discriminate.
-    assert (Hth : is_panic (theta_step c signal pp) = false).
-    { unfold Config.theta_step. destruct (is_auto _); [| reflexivity]. destruct (is_pol_off pp); [| reflexivity].
-      unfold optimum_theta. specialize (H2 signal (cfg_cs0 c)). destruct (o_snell_ext K _ _) as [e |]; [| congruence].
-      rewrite Hle. specialize (H3 (erase_theta o (cfg_cs0 c)) e signal (cfg_pump c)).
-      destruct (o_nm_theta K _ _ _ _); [reflexivity | congruence]. }
-    destruct (theta_step c signal pp) as [cs | |]; cbn [bind is_panic] in *; try reflexivity; try discriminate.
-    unfold Config.idler_step. destruct (c_idler c) as [| ic].
-    - unfold idler_optimum. rewrite Hle. destruct (o_idler_theta K _ _ _ _); reflexivity.
-    - pose proof (beam_of_cfg_no_panic (idler_polarization (cs_pm cs)) ic cs Htot) as Hi.
-      destruct (beam_of_cfg o K _ ic cs); cbn [bind is_panic] in *; try reflexivity; discriminate.
-  Qed.
+  Proof. intros Htot. apply no_panic_at. apply searches_total_at. exact Htot. Qed.
 
   (* every panic of try_as_spdc is one of: the three unwraps of the signal<=pump error, or a failed simplex search *)
   Theorem panic_sites c s :
@@ -286,3 +326,4 @@ End Rules.
 
 Arguments angle_spec_bad {num} b.
 Arguments searches_total {num} K.
+Arguments searches_defined_at {num} o K c.
